@@ -136,6 +136,12 @@ impl Monitor for Mon {
             v.push(Event::Deliver { to: Target::Unknown, reply: Reply::plain(RClass::Indication) });
             v.push(Event::Deliver { to: Target::Unknown, reply: menu[0] });
         }
+        // non-responses carrying an outstanding id; a send that is refused for lack of buffer space (no request comes
+        // into being, so no timer may either)
+        v.extend(explore::id_tie_events(w));
+        if w.reqs.len() < self.max_sends && !w.just_advanced {
+            v.push(Event::SendTiny { app: 0, cap: 16 });
+        }
         v
     }
     fn on_end(&mut self, w: &World, stranded: bool, rep: Option<(&mut Report, &[Event])>) {
@@ -164,7 +170,7 @@ pub fn run(ctx: &RunCtx) -> i32 {
         (Transport::Reliable { timeout_ms: 300 }, Mech::None),
         (Transport::Reliable { timeout_ms: 300 }, Mech::ShortTerm(None)),
     ] {
-        let cfg = Cfg { transport: t, mech: m, fingerprint: false, max_tx: 10 };
+        let cfg = Cfg { transport: t, mech: m, fingerprint: false, max_tx: 10, cred: 0, method: 1 };
         jobs.push((cfg.clone(), 2, if thorough { 11 } else { 9 }, if thorough { TimeDetail::Fine } else { TimeDetail::Medium }));
         jobs.push((cfg.clone(), 3, if thorough { 10 } else { 8 }, if thorough { TimeDetail::Medium } else { TimeDetail::Coarse }));
         jobs.push((cfg, 4, if thorough { 10 } else { 8 }, TimeDetail::Coarse));
@@ -175,7 +181,7 @@ pub fn run(ctx: &RunCtx) -> i32 {
         (Transport::Unreliable { rto_ms: 3000, gran_ms: 1, rm: 16, rc: 4 }, 4, if thorough { 10 } else { 8 }),
         (Transport::Unreliable { rto_ms: 70_000, gran_ms: 1, rm: 2, rc: 2 }, 3, 8),
     ] {
-        jobs.push((Cfg { transport: t, mech: Mech::None, fingerprint: false, max_tx: 10 }, n, depth, TimeDetail::Coarse));
+        jobs.push((Cfg { transport: t, mech: Mech::None, fingerprint: false, max_tx: 10, cred: 0, method: 1 }, n, depth, TimeDetail::Coarse));
     }
     let per: Vec<_> = jobs
         .par_iter()
@@ -191,9 +197,9 @@ pub fn run(ctx: &RunCtx) -> i32 {
         .collect();
     // the faithful controller (deviation-bounded: timer lateness 0 / -1 ms / +1 ms / half a slot / beyond all deadlines)
     let ccfgs = vec![
-        Cfg { transport: Transport::Unreliable { rto_ms: 500, gran_ms: 1, rm: 16, rc: 7 }, mech: Mech::None, fingerprint: false, max_tx: 10 },
-        Cfg { transport: Transport::Unreliable { rto_ms: 100, gran_ms: 1, rm: 2, rc: 3 }, mech: Mech::ShortTerm(Some(false)), fingerprint: false, max_tx: 10 },
-        Cfg { transport: Transport::Reliable { timeout_ms: 39500 }, mech: Mech::None, fingerprint: false, max_tx: 10 },
+        Cfg { transport: Transport::Unreliable { rto_ms: 500, gran_ms: 1, rm: 16, rc: 7 }, mech: Mech::None, fingerprint: false, max_tx: 10, cred: 0, method: 1 },
+        Cfg { transport: Transport::Unreliable { rto_ms: 100, gran_ms: 1, rm: 2, rc: 3 }, mech: Mech::ShortTerm(Some(false)), fingerprint: false, max_tx: 10, cred: 0, method: 1 },
+        Cfg { transport: Transport::Reliable { timeout_ms: 39500 }, mech: Mech::None, fingerprint: false, max_tx: 10, cred: 0, method: 1 },
     ];
     ccfgs.par_iter().for_each(|cfg| {
         let mut r = Report::new();
@@ -209,7 +215,7 @@ pub fn run(ctx: &RunCtx) -> i32 {
         rep,
         Finish {
             level: "model_checking",
-            rule: format!("free timer calls: breadth-first exploration to depth {} with 2, 3, 4 and 5 requests started at different instants (RTO from 37 ms to 70 s), timer calls at region representatives (incl. overdue ones), acceptable and auth-failing replies, indications and replies for unknown ids; faithful controller: every run-to-completion with <= {} deviations where the controller keeps one armed timer (replaced by each newer notification, kept across received buffers) and fires it on time / 1 ms early / 1 ms late / half a slot late / beyond all deadlines, with lost, duplicated, late and rejected replies and extra requests. Monitor: after send_request / on_timeout exactly one notification iff a request awaits; it names an awaiting request with the minimal pending deadline (least schedule point or final deadline after its last handling, integer ns) and announces max(0, deadline - now); every request awaiting at a timer call at or after its final deadline is final after it; controller runs end with nothing awaiting", if thorough { 11 } else { 9 }, if thorough { 4 } else { 3 }),
+            rule: format!("free timer calls: breadth-first exploration to depth {} with 2, 3, 4 and 5 requests started at different instants (RTO from 37 ms to 70 s), timer calls at region representatives (incl. overdue ones), acceptable and auth-failing replies, indications and replies for unknown ids, indications / requests carrying the id of an awaiting request, sends refused for lack of buffer space; faithful controller: every run-to-completion with <= {} deviations where the controller keeps one armed timer (replaced by each newer notification, kept across received buffers) and fires it on time / 1 ms early / 1 ms late / half a slot late / beyond all deadlines, with lost, duplicated, late and rejected replies and extra requests. Monitor: after send_request / on_timeout exactly one notification iff a request awaits; it names an awaiting request with the minimal pending deadline (least schedule point or final deadline after its last handling, integer ns) and announces max(0, deadline - now); every request awaiting at a timer call at or after its final deadline is final after it; controller runs end with nothing awaiting", if thorough { 11 } else { 9 }, if thorough { 4 } else { 3 }),
             assumptions: vec!["pending deadlines follow C06's schedule arithmetic with the per-transaction RTO read through H1".into()],
             required_symbols: vec!["bfs-configs", "accurate-notification", "overdue-zero", "no-notification-when-idle", "controller-run-terminated", "controller-runs", "tie"],
             min_outcomes: 6,
